@@ -53,6 +53,13 @@ var props = []*PropCfg{
 
 func init() {
 	props = append(props, &PropCfg{
+		ID:    "C42",
+		Pkgs:  []string{"./internal/vkgo/pkg/semaphore"},
+		Funcs: `^\(\*Weighted\)\.(Acquire|TryAcquire|Release|ForceAcquire|SetSize|Observe|notifyWaiters)$`,
+		Scope: "safety form for all schedules (monitor rule): lock discipline; no store to cur outside ForceAcquire pushes it above size; with the lock free the first waiter never fits (no lost wake-up)",
+		Unverified: []string{"fairness of sync.Mutex and of the Go scheduler (eventual admission is reduced to the quiescent invariant)", "WaitEmpty (reads size without the lock; not among the operations the property quantifies over)"},
+	})
+	props = append(props, &PropCfg{
 		ID:    "C41",
 		Pkgs:  []string{"./internal/vkgo/pkg/algo"},
 		Funcs: `^\(\*CircularSlice\)\.`,
